@@ -395,6 +395,36 @@ pub fn gen_c16(tier: &str, rng: &mut Rng, emit: &mut Emit) {
             }
         }
     }
+    // separators in the wrong place while the string still has 36 characters, four dashes and 32 hex digits: every single dash
+    // moved by 1..3 positions either way, every permutation-like regrouping of the five group lengths, two dashes moved
+    for _ in 0..12 {
+        let base = rand_uuid(rng);
+        let digits: Vec<u8> = base.iter().cloned().filter(|c| *c != b'-').collect();
+        let build = |groups: &[usize]| -> Vec<u8> {
+            let mut out = Vec::new();
+            let mut k = 0;
+            for (i, g) in groups.iter().enumerate() {
+                if i > 0 { out.push(b'-'); }
+                out.extend_from_slice(&digits[k..k + g]);
+                k += g;
+            }
+            out
+        };
+        let canon = [8usize, 4, 4, 4, 12];
+        for i in 0..4usize {
+            for d in 1..=3usize {
+                // move dash i to the right / left by d: group i grows / shrinks, group i+1 shrinks / grows
+                let mut g = canon;
+                if g[i + 1] > d { g[i] += d; g[i + 1] -= d; emit.case(6, text_case(&build(&g))); }
+                let mut g = canon;
+                if g[i] > d { g[i] -= d; g[i + 1] += d; emit.case(6, text_case(&build(&g))); }
+            }
+        }
+        for g in [[12usize, 4, 4, 4, 8], [4, 8, 4, 4, 12], [8, 4, 4, 12, 4], [4, 4, 4, 8, 12], [8, 8, 4, 4, 8], [7, 5, 4, 4, 12],
+                  [8, 4, 3, 5, 12], [9, 3, 5, 3, 12], [0, 12, 4, 4, 12], [8, 4, 4, 16, 0], [32, 0, 0, 0, 0], [6, 6, 6, 6, 8]] {
+            emit.case(6, text_case(&build(&g)));
+        }
+    }
     // every ASCII byte at every position of two well-formed strings (sign characters, whitespace, control characters,
     // lookalike punctuation: whatever a library parser might tolerate)
     for _ in 0..2 {
